@@ -104,6 +104,20 @@ func h3SubConfigs(mgr *RawManager, pool []uint32) ([]RawConfiguration, error) {
 	return out, nil
 }
 
+func h3Perms(xs []uint32) [][]uint32 {
+	if len(xs) <= 1 {
+		return [][]uint32{append([]uint32(nil), xs...)}
+	}
+	var out [][]uint32
+	for i := range xs {
+		rest := append(append([]uint32(nil), xs[:i]...), xs[i+1:]...)
+		for _, p := range h3Perms(rest) {
+			out = append(out, append([]uint32{xs[i]}, p...))
+		}
+	}
+	return out
+}
+
 func h3Snapshot(c RawConfiguration) []*RawNode {
 	return append([]*RawNode(nil), c[:cap(c)]...)
 }
@@ -357,6 +371,80 @@ func h3Creation() (int, error) {
 		}
 		if e := h3Unchanged(what+".WithNewNodes", cfg, snap, len(distinct)); e != nil {
 			return count, e
+		}
+	}
+	// the pool answers lookups correctly whatever the order in which nodes were added
+	for _, perm := range h3Perms([]uint32{1, 2, 3, 4}) {
+		count++
+		mgr := NewRawManager(WithNoConnect())
+		objs := map[uint32]*RawNode{}
+		for k, id := range perm {
+			n, err := NewRawNodeWithID(h3Addr(id), id)
+			if err != nil {
+				return count, err
+			}
+			if err := mgr.AddNode(n); err != nil {
+				return count, fmt.Errorf("AddNode(%d) after %v: %v", id, perm[:k], err)
+			}
+			objs[id] = n
+			for _, q := range []uint32{1, 2, 3, 4} {
+				got, found := mgr.Node(q)
+				if want, added := objs[q]; added != found || (found && got != want) {
+					return count, fmt.Errorf("after AddNode of ids %v: Node(%d) = (%v, %v), want found=%v with the object that was added", perm[:k+1], q, got, found, added)
+				}
+			}
+			if mgr.Size() != k+1 {
+				return count, fmt.Errorf("after AddNode of ids %v: Size() = %d", perm[:k+1], mgr.Size())
+			}
+		}
+		// naming registered nodes again (in the order they were added) creates nothing new
+		m := map[string]uint32{}
+		for _, id := range perm[:2] {
+			m[h3Addr(id)] = id
+		}
+		cfg, err := NewRawConfiguration(mgr, WithNodeMap(m))
+		if e := h3Check(fmt.Sprintf("WithNodeMap(%v) on a pool filled in order %v", m, perm), mgr, cfg, err, perm[:2]); e != nil {
+			return count, e
+		}
+		for _, n := range cfg {
+			if objs[n.ID()] != n {
+				return count, fmt.Errorf("WithNodeMap(%v) on a pool filled in order %v: node %d is a second object for a registered id", m, perm, n.ID())
+			}
+		}
+		if mgr.Size() != 4 {
+			return count, fmt.Errorf("WithNodeMap(%v) on a pool filled in order %v: the pool now holds %d nodes, want 4", m, perm, mgr.Size())
+		}
+	}
+	// address lists naming a node again after a node with a smaller generated id
+	{
+		n1, _ := NewRawNode(a1)
+		n2, _ := NewRawNode(a2)
+		hi, lo := a1, a2
+		if n1.ID() < n2.ID() {
+			hi, lo = a2, a1
+		}
+		for _, l := range [][]string{{hi, lo, hi}, {lo, hi, lo}, {hi, lo, lo, hi}} {
+			count++
+			mgr := NewRawManager(WithNoConnect())
+			cfg, err := NewRawConfiguration(mgr, WithNodeList(l))
+			if err != nil || cfg.Size() != 2 || mgr.Size() != 2 {
+				return count, fmt.Errorf("WithNodeList(%v): configuration %v (err %v), pool size %d; want two nodes, one per distinct address", l, cfg.NodeIDs(), err, mgr.Size())
+			}
+			if e := h3Check(fmt.Sprintf("WithNodeList(%v)", l), mgr, cfg, err, cfg.NodeIDs()); e != nil {
+				return count, e
+			}
+		}
+		mgr := NewRawManager(WithNoConnect())
+		c1, err1 := NewRawConfiguration(mgr, WithNodeList([]string{hi}))
+		c2, err2 := NewRawConfiguration(mgr, WithNodeList([]string{lo, hi}))
+		count++
+		if err1 != nil || err2 != nil || mgr.Size() != 2 || c2.Size() != 2 || !c2.contains(c1[0].ID()) {
+			return count, fmt.Errorf("WithNodeList([hi]) then WithNodeList([lo hi]): %v %v / %v %v, pool size %d", c1.NodeIDs(), err1, c2.NodeIDs(), err2, mgr.Size())
+		}
+		for _, n := range c2 {
+			if n.ID() == c1[0].ID() && n != c1[0] {
+				return count, fmt.Errorf("WithNodeList([hi]) then WithNodeList([lo hi]): two node objects for id %d", n.ID())
+			}
 		}
 	}
 	// AddNode: a second node with a registered id is refused and the pool is unchanged
